@@ -349,6 +349,13 @@ MUTATIONS = [
     ("find_unchanged_atom_pairs: locals renamed, element test first, difference without np.array", "neutral", "mofun/atoms.py",
      [("    for i, p1 in enumerate(orig_structure.positions):\n        for j, p2 in enumerate(final_structure.positions):\n            if norm(np.array(p2) - p1) < max_delta and orig_structure.elements[i] == final_structure.elements[j]:\n                match_pairs.append((i,j))\n",
        "    for a, pa in enumerate(orig_structure.positions):\n        for b, pb in enumerate(final_structure.positions):\n            if final_structure.elements[b] == orig_structure.elements[a] and norm(pb - pa) < max_delta:\n                match_pairs.append((a,b))\n")], "C08:5", "pass"),
+    ("unchanged (fifth batch, atoms_of_type)", "control", None, [], "C02:5", "all pass"),
+    ("atoms_of_type: == -> !=", "breaking", "mofun/helpers.py",
+     [("return [i for i, t in enumerate(types) if t == element]", "return [i for i, t in enumerate(types) if t != element]")], "C02:5", "fail"),
+    ("atoms_of_type: filter dropped (every atom is a start atom)", "breaking", "mofun/helpers.py",
+     [("return [i for i, t in enumerate(types) if t == element]", "return [i for i, t in enumerate(types)]")], "C02:5", "fail"),
+    ("atoms_of_type: variables renamed, operands of == swapped", "neutral", "mofun/helpers.py",
+     [("return [i for i, t in enumerate(types) if t == element]", "return [k for k, e in enumerate(types) if element == e]")], "C02:5", "pass"),
     # ---- leaving the subset
     ("max_bond_length: while loop added (outside the subset)", "unsupported", "mofun/detect_bonds.py",
      [('    """Return the maximum length of a bond between two elements"""\n', '    while False:\n        pass\n')], "C17", "Unsupported"),
